@@ -1,25 +1,53 @@
 """A deterministic scheduler for two real threads of the implementation (C19): threads only run between
-yield points (stream writes, time.sleep, Thread.join, thread start), one at a time, in the order a schedule says."""
+yield points, one at a time, in the order a schedule says.
+
+Two granularities:
+  run_auto       COARSE: yield points = stream writes, time.sleep, Thread.join, thread start (the granularity of
+                 Model/Spinner.v, entry run_C19);
+  run_auto_fine  FINE: additionally every operation on the stop event (set / is_set / clear / wait) and - between the
+                 start of the spinner thread and the return of join - every read and write of the indicator's fields
+                 `_auto_thread`, `_message`, `_current`, `_started`, `_update_time` (the state the two threads share
+                 without a lock).  A thread stops BEFORE the operation and performs it when it is scheduled next, so a
+                 schedule decides the order of all accesses to shared state: every check-then-act on those fields can be
+                 split by the other thread (the granularity of Model/Spinner2.v, entry run_C19F).
+
+A schedule entry that names a thread which cannot run is never skipped silently: the controller records why
+(`skips`: "S:done", "M:done", "M:join" = blocked in join while the spinner lives); any other reason is an error of the
+run (`errors`), and so is a thread that does not reach a yield point within 5 s."""
 import threading
 from fractions import Fraction
+
+SHARED = ("_auto_thread", "_message", "_current", "_started", "_update_time")
+EXC_KINDS = {"RuntimeError": RuntimeError, "KeyboardInterrupt": KeyboardInterrupt, "SystemExit": SystemExit, "GeneratorExit": GeneratorExit}
+
+
+class SchedulerAbort(BaseException):
+    """raised inside a controlled thread at its yield point when the run is over and the thread is still waiting"""
 
 
 class Controller(object):
     def __init__(self, t0_ms):
+        self.abort = False
         self.cv = threading.Condition()
         self.clock = t0_ms
         self.state = {}          # name -> "running" | ("yield", kind, arg) | "done"
         self.turn = None
         self.log = []            # (thread name, data) for every stream write
+        self.events = []         # every operation performed, in order: (thread name, kind, arg, value)
         self.errors = []
+        self.skips = []          # (position, "S:done" | "M:done" | "M:join")
+        self.fine = False        # attribute accesses of the main thread are yield points (spinner started, join not returned)
+        self.event_flag = None   # the stop event's flag (fine mode)
 
     # ---- called by controlled threads
     def yield_point(self, name, kind, arg=None):
         with self.cv:
             self.state[name] = ("yield", kind, arg)
             self.cv.notify_all()
-            while self.turn != name:
+            while self.turn != name and not self.abort:
                 self.cv.wait()
+            if self.abort:
+                raise SchedulerAbort()
             self.turn = None
             self.state[name] = "running"
             if kind == "sleep":
@@ -37,17 +65,31 @@ class Controller(object):
                 if not self.cv.wait(5):
                     raise RuntimeError("scheduler: a thread did not reach a yield point")
 
-    def runnable(self, name):
+    def why_not(self, name):
+        """None when the thread can be stepped, else the reason"""
         v = self.state.get(name)
-        if v is None or v == "done":
-            return False
-        if v[1] == "join":
-            return self.state.get("S") == "done"
-        return True
+        if v is None:
+            return "absent"
+        if v == "done":
+            return "done"
+        if v[1] == "join" and self.state.get("S") != "done":
+            return "join"
+        if v[1] == "waitset" and not self.event_flag:
+            return "wait"
+        return None
 
-    def step(self, name):
+    def runnable(self, name):
+        return self.why_not(name) is None
+
+    def step(self, name, pos=None):
         self.wait_quiescent()
-        if not self.runnable(name):
+        why = self.why_not(name)
+        if why is not None:
+            tag = "%s:%s" % (name, why)
+            if tag in ("S:done", "M:done", "M:join"):
+                self.skips.append((pos, tag))
+            else:
+                self.errors.append(("scheduler", "schedule position %r names thread %s, which cannot run: %s" % (pos, name, why)))
             return False
         with self.cv:
             self.turn = name
@@ -60,9 +102,31 @@ class Controller(object):
         return self.state.get(name) == "done"
 
 
-def run_auto(t0_ms, interval, start_msg, end_msg, actions, schedule, timeout=5):
-    """actions: list of ("set", m) | ("work", ms) | ("raise",); schedule: list of bools (True = spinner)."""
-    import time as _time
+def _drive(ctl, m, schedule, n_actions, fine):
+    """the schedule, then: the caller whenever it can run, else the spinner"""
+    ctl.step("M", "init")            # the model's init: the caller performs its first write and runs to its next yield
+    for i, sp in enumerate(schedule):
+        ctl.step("S" if sp else "M", i)
+    fuel = (60 * (n_actions + 4) + 200) if fine else (4 * (n_actions + 8) + 50)
+    while fuel > 0:
+        ctl.wait_quiescent()
+        if ctl.done("M") and (ctl.done("S") or "S" not in ctl.state):
+            break
+        if ctl.runnable("M"):
+            ctl.step("M", "completion")
+        elif ctl.runnable("S"):
+            ctl.step("S", "completion")
+        else:
+            ctl.errors.append(("scheduler", "deadlock: caller %r, spinner %r" % (ctl.state.get("M"), ctl.state.get("S"))))
+            break
+        fuel -= 1
+    if ctl.done("M"):
+        m.join(5)
+
+
+def run_auto(t0_ms, interval, start_msg, end_msg, actions, schedule, timeout=5, fine=False, values=None, fmt=None):
+    """actions: list of ("set", m) | ("work", ms) | ("raise",) | ("raise", kind); schedule: list of bools (True = spinner).
+    fine=False: yield points are stream writes, sleeps, join, thread start; fine=True: see the module text."""
     import clikit.ui.components.progress_indicator as pi
     from clikit.api.io import Output
     from clikit.io.output_stream import BufferedOutputStream
@@ -73,10 +137,14 @@ def run_auto(t0_ms, interval, start_msg, end_msg, actions, schedule, timeout=5):
     def me():
         return names.get(threading.current_thread(), "?")
 
+    def op(kind, arg, value=None):
+        ctl.events.append((me(), kind, arg, value))
+
     class Stream(BufferedOutputStream):
         def write(self, string):
             ctl.yield_point(me(), "write", string)
             ctl.log.append((me(), string))
+            op("write", string)
             BufferedOutputStream.write(self, string)
 
     class CThread(threading.Thread):
@@ -85,7 +153,8 @@ def run_auto(t0_ms, interval, start_msg, end_msg, actions, schedule, timeout=5):
             orig = self._target
 
             def target(*a, **k):
-                ctl.yield_point("S", "sleep", 0)
+                if not fine:
+                    ctl.yield_point("S", "sleep", 0)
                 try:
                     orig(*a, **k)
                 except BaseException as e:
@@ -97,14 +166,48 @@ def run_auto(t0_ms, interval, start_msg, end_msg, actions, schedule, timeout=5):
                 ctl.state["S"] = "running"
             # a thread that never ends (a spinner that is not stopped) must not keep the worker process alive
             self.daemon = True
+            ctl.fine = fine
             threading.Thread.start(self)
 
         def join(self, timeout=None):
             ctl.yield_point(me(), "join")
+            op("join", None)
             threading.Thread.join(self, 5)
+            ctl.fine = False
+
+    class CEvent(object):
+        """threading.Event whose operations are scheduling points: the thread stops before the operation"""
+        def __init__(self):
+            ctl.event_flag = False
+
+        def set(self):
+            ctl.yield_point(me(), "ev", "set")
+            ctl.event_flag = True
+            op("ev", "set")
+
+        def clear(self):
+            ctl.yield_point(me(), "ev", "clear")
+            ctl.event_flag = False
+            op("ev", "clear")
+
+        def is_set(self):
+            ctl.yield_point(me(), "ev", "is_set")
+            op("ev", "is_set", ctl.event_flag)
+            return ctl.event_flag
+        isSet = is_set
+
+        def wait(self, timeout=None):
+            if timeout is None:
+                ctl.yield_point(me(), "waitset")
+            else:
+                ctl.yield_point(me(), "ev", "wait")
+                if not ctl.event_flag:
+                    ctl.yield_point(me(), "sleep", timeout)
+            op("ev", "wait", ctl.event_flag)
+            return ctl.event_flag
 
     class Shim(object):
-        Event = threading.Event
+        Event = CEvent if fine else threading.Event
         Thread = CThread
 
     class TimeShim(object):
@@ -115,15 +218,37 @@ def run_auto(t0_ms, interval, start_msg, end_msg, actions, schedule, timeout=5):
         @staticmethod
         def sleep(d):
             ctl.yield_point(me(), "sleep", d)
+            op("sleep", d)
 
     old_threading, old_time = pi.threading, pi.time
     pi.threading, pi.time = Shim, TimeShim
+
+    class Ind(pi.ProgressIndicator):
+        """the indicator with its shared fields watched: every access by one of the two threads is recorded; in fine mode it is a
+        scheduling point while both threads exist (from the start of the spinner to the return of join)"""
+        def __getattribute__(self, name):
+            if name in SHARED and me() != "?":
+                if ctl.fine:
+                    ctl.yield_point(me(), "rd", name)
+                v = object.__getattribute__(self, name)
+                op("rd", name, v if isinstance(v, (str, int, bool, type(None))) else (v is not None))
+                return v
+            return object.__getattribute__(self, name)
+
+        def __setattr__(self, name, value):
+            if name in SHARED and me() != "?":
+                if ctl.fine:
+                    ctl.yield_point(me(), "wr", name)
+                op("wr", name, value if isinstance(value, (str, int, bool, type(None))) else (value is not None))
+            object.__setattr__(self, name, value)
+
     result = {}
     try:
         out = Output(Stream(), AnsiFormatter(forced=True))
-        ind = pi.ProgressIndicator(out, None, interval)
+        ind = Ind(out, fmt, interval, values)
 
         def body():
+            expected = None
             try:
                 with ind.auto(start_msg, end_msg):
                     for a in actions:
@@ -132,14 +257,14 @@ def run_auto(t0_ms, interval, start_msg, end_msg, actions, schedule, timeout=5):
                         elif a[0] == "work":
                             pi.time.sleep(Fraction(a[1], 1000))
                         else:
-                            raise RuntimeError("body failed")
+                            expected = EXC_KINDS[a[1] if len(a) > 1 else "RuntimeError"]("body failed")
+                            raise expected
                 result["raised"] = False
-            except RuntimeError as e:
-                result["raised"] = str(e) == "body failed"
-                if not result["raised"]:
-                    ctl.errors.append(("M", repr(e)))
             except BaseException as e:
-                ctl.errors.append(("M", repr(e)))
+                # the body's own exception, and nothing else, must come out of the block
+                result["raised"] = e is expected
+                if e is not expected:
+                    ctl.errors.append(("M", repr(e)))
             finally:
                 ctl.finished("M")
         m = threading.Thread(target=body)
@@ -148,25 +273,21 @@ def run_auto(t0_ms, interval, start_msg, end_msg, actions, schedule, timeout=5):
         with ctl.cv:
             ctl.state["M"] = "running"
         m.start()
-        # the model's init: the main thread performs its first write and runs to its next yield
-        ctl.step("M")
-        for sp in schedule:
-            ctl.step("S" if sp else "M")
-        fuel = 4 * (len(actions) + 8) + 50
-        while fuel > 0:
-            ctl.wait_quiescent()
-            if ctl.done("M") and (ctl.done("S") or "S" not in ctl.state):
-                break
-            if ctl.runnable("M"):
-                ctl.step("M")
-            else:
-                ctl.step("S")
-            fuel -= 1
-        m.join(5)
+        _drive(ctl, m, schedule, len(actions), fine)
         alive = [t for t in names if t.is_alive()]
-        result.update({"log": list(ctl.log), "errors": list(ctl.errors), "alive": len(alive),
-                       "stop": bool(ind._auto_running is not None and ind._auto_running.is_set()),
-                       "done": ctl.done("M") and ctl.done("S")})
+        ev = object.__getattribute__(ind, "_auto_running")
+        if fine:
+            stop = bool(ctl.event_flag)
+        else:
+            stop = bool(ev is not None and ev.is_set())
+        result.update({"log": list(ctl.log), "errors": list(ctl.errors), "alive": len(alive), "stop": stop,
+                       "done": ctl.done("M") and ctl.done("S"), "skips": list(ctl.skips), "events": list(ctl.events)})
         return result
     finally:
+        # threads still waiting at a yield point (a spinner that was never stopped, a caller blocked in join) are released
+        with ctl.cv:
+            ctl.abort = True
+            ctl.cv.notify_all()
+        for t in list(names):
+            threading.Thread.join(t, 1)
         pi.threading, pi.time = old_threading, old_time
